@@ -1,2 +1,41 @@
-(** C10 - placeholder *)
-From VG Require Import Model.Serve.
+(** C10 - Buffered data never exceeds the configured limit.
+    Statements only; proofs in Proofs/ReaderProofs.v, Proofs/BoundProofs.v. *)
+From VG Require Import Model.Bytes Model.Stream Model.Envelope Model.Reader Model.Response Model.Request Model.Serve.
+From VG Require Import Proofs.StreamProofs Proofs.ReaderProofs Proofs.BoundProofs.
+Open Scope Z_scope.
+
+(** request side: a message read for re-encoding fits the limit; so does what is prepared for
+    the backend; reading for a message stops at one byte over the limit *)
+Theorem C10_request_message_bounded : forall cx u p comp u2,
+  -1 <= limit cx -> read_request_message cx u = MsgOk p comp u2 -> zlen p <= Z.max 0 (limit cx).
+Proof. exact request_message_bounded. Qed.
+Print Assumptions C10_request_message_bounded.
+
+Theorem C10_prepared_message_bounded : forall cx o p comp b env,
+  tr_prepare cx o p comp = (Some (b, env), None) -> zlen b <= limit cx /\ (length env <= 5)%nat.
+Proof. exact prepared_message_bounded. Qed.
+Print Assumptions C10_prepared_message_bounded.
+
+Theorem C10_unframed_read_stops_at_limit : forall limit u, -1 <= limit ->
+  exists u', copy_hard_limit limit u =
+               ((ztake (limit + 1) (flat u),
+                 if limit <? zlen (flat u) then SErr EResourceExhausted else end_status (u_term u)), u') /\
+             u_term u' = u_term u /\ u_eof_last u' = u_eof_last u /\ flat u' = zdrop (limit + 1) (flat u).
+Proof. exact copy_hard_limit_spec. Qed.
+Print Assumptions C10_unframed_read_stops_at_limit.
+
+(** response side: in every state any handler behaviour (with request-side failures anywhere) can
+    reach, the buffered unary body, the message being assembled, the error body, the trailer and
+    the body being measured all fit the limit; a partial envelope is at most 5 bytes *)
+Theorem C10_response_buffers_bounded : forall cx s h r wr,
+  0 <= w_limit cx -> run_script cx s (rw_init h) [] = (r, wr) ->
+  (forall b, c_buf (r_core r) = Some b -> zlen b <= w_limit cx) /\
+  match r_w r with
+  | BTrans w => forall b, tw_buf w = Some b -> zlen b <= Z.max 5 (w_limit cx)
+  | BEnv w => zlen (ew_envacc w) <= 5 \/ ew_wenv w = false /\
+              match ew_cur w with ECTrailer b | ECMeasure b => zlen b <= w_limit cx | _ => True end
+  | BErr w => forall b, xw_buf w = Some b -> zlen b <= w_limit cx
+  | _ => True
+  end.
+Proof. exact reachable_buffers_bounded. Qed.
+Print Assumptions C10_response_buffers_bounded.
